@@ -7,6 +7,8 @@
 // scheduler grants it, so an interleaving is forced, not hoped for.
 //
 //	sched code <tc> <ta> key <0|1> max <M> pre <client> <n> th <n> (<a|r> <listener> <laddr> <fault>)* ev <m> (C|X|t<i>)*
+//	nodes …  (same as sched)      nfine … (same as fine): every call on its own cluster node (real HybridStorage,
+//	                              node-local cache + the cache shared by all nodes, default routing tables)
 //	fine  seed <s> code <tc> <ta> max <M> pre <client> <n> th <n> (<a|r> <listener> <laddr> <fault>)*
 //	     ## res <n> (<result>)* maps <k> (<listener>:<laddr>:<tc>:<ta>)* rec <absent | a<0|1>r<0|1>:by<id|->:m<tuple|x|->>
 //
@@ -38,6 +40,8 @@ import (
 	coreerrors "tunnox-core/internal/core/errors"
 	"tunnox-core/internal/core/idgen"
 	corelog "tunnox-core/internal/core/log"
+	"tunnox-core/internal/core/storage"
+	"tunnox-core/internal/core/storage/hybrid"
 	"tunnox-core/internal/core/storage/memory"
 	vc "tunnox-core/internal/verifharness/common"
 )
@@ -96,6 +100,7 @@ type thread struct {
 	occ      map[string]int
 	fired    bool
 	updW     int
+	claimKey string
 	writes   []string // names of the write operations seen (for fault enumeration)
 	c        *caseRun
 }
@@ -133,6 +138,14 @@ func (g *gstore) gate(op, key string, write bool) error {
 		return nil
 	}
 	class := keyClass(key)
+	// the claim is whatever key the service itself takes with SetNX (outside the mapping service) and deletes
+	// again; recognising it by behaviour keeps the phases right if the key is renamed or re-routed
+	if th.override == "" && op == "SetNX" {
+		th.claimKey = key
+	}
+	if th.claimKey != "" && key == th.claimKey {
+		class = "claim"
+	}
 	phase := th.override
 	if phase == "" {
 		switch {
@@ -278,6 +291,7 @@ type tspec struct {
 
 type caseSpec struct {
 	fine      bool
+	nodes     bool // every call on its own node: HybridStorage with a node-local cache over the shared cache
 	seed      uint64
 	tc        int64
 	ta        int
@@ -326,6 +340,11 @@ func parseCase(line string) (caseSpec, error) {
 	}
 	switch next() {
 	case "sched":
+	case "nodes":
+		s.nodes = true
+	case "nfine":
+		s.nodes = true
+		fallthrough
 	case "fine":
 		s.fine = true
 		if next() != "seed" {
@@ -439,7 +458,14 @@ type env struct {
 	expAt   time.Time
 }
 
-func newStack(ctx context.Context, st *gstore, max int) (*services.ConnectionCodeService, *repos.ConnectionCodeRepository, *repos.PortMappingRepo, services.PortMappingService) {
+// hybridNode builds the storage of one node of a cluster: a node-local cache of its own and the cache shared by
+// all nodes, behind the real HybridStorage with its default routing tables (what reaches other nodes is decided
+// by the key prefix).
+func hybridNode(ctx context.Context, shared *memory.Storage, th *thread) storage.Storage {
+	return hybrid.NewWithSharedCache(ctx, &gstore{Storage: memory.New(ctx), th: th}, &gstore{Storage: shared, th: th}, nil, nil)
+}
+
+func newStack(ctx context.Context, st storage.Storage, th *thread, max int) (*services.ConnectionCodeService, *repos.ConnectionCodeRepository, *repos.PortMappingRepo, services.PortMappingService) {
 	repo := repos.NewRepository(st)
 	cc := repos.NewConnectionCodeRepository(repo)
 	pr := repos.NewPortMappingRepo(repo)
@@ -447,9 +473,9 @@ func newStack(ctx context.Context, st *gstore, max int) (*services.ConnectionCod
 	ps := services.NewPortMappingService(pr, idm, nil, ctx)
 	var psI services.PortMappingService = ps
 	var prI repos.IPortMappingRepository = pr
-	if st.th != nil {
-		psI = &pmSvc{PortMappingService: ps, th: st.th}
-		prI = &pmRepo{IPortMappingRepository: pr, th: st.th}
+	if th != nil {
+		psI = &pmSvc{PortMappingService: ps, th: th}
+		prI = &pmRepo{IPortMappingRepository: pr, th: th}
 	}
 	cfg := &services.ConnectionCodeServiceConfig{MaxActiveCodesPerClient: 10, MaxActiveMappingsPerClient: max}
 	svc := services.NewConnectionCodeService(cc, psI, prI, cfg, ctx)
@@ -486,7 +512,11 @@ func runCaseT(s caseSpec, scale int, thsOut *[]*thread) (obs string, skip string
 	defer cancel()
 	c := &caseRun{spec: s}
 	e := &env{ctx: ctx, inner: memory.New(ctx)}
-	e.svc, e.ccRepo, e.pmRepo, e.pmSvc = newStack(ctx, &gstore{Storage: e.inner}, s.max)
+	var adminSt storage.Storage = &gstore{Storage: e.inner}
+	if s.nodes {
+		adminSt = hybridNode(ctx, e.inner, nil)
+	}
+	e.svc, e.ccRepo, e.pmRepo, e.pmSvc = newStack(ctx, adminSt, nil, s.max)
 	for k := 0; k < s.preN; k++ {
 		now := time.Now()
 		if _, err := e.pmSvc.CreatePortMapping(&models.PortMapping{ListenClientID: s.preClient, TargetClientID: preTarget,
@@ -565,7 +595,11 @@ func runCaseT(s caseSpec, scale int, thsOut *[]*thread) (obs string, skip string
 				}
 				th.report <- "done"
 			}()
-			svc, _, _, _ := newStack(ctx, &gstore{Storage: e.inner, th: th}, s.max)
+			var st storage.Storage = &gstore{Storage: e.inner, th: th}
+			if s.nodes {
+				st = hybridNode(ctx, e.inner, th)
+			}
+			svc, _, _, _ := newStack(ctx, st, th, s.max)
 			if th.kind == "a" {
 				m, err := svc.ActivateConnectionCode(&services.ActivateConnectionCodeRequest{Code: code, ListenClientID: th.listener, ListenAddress: listenAddrs[th.laddr]})
 				if err != nil {
@@ -758,6 +792,13 @@ func execCaseDeferred(out *vc.Out, line string) func() {
 	if strings.HasPrefix(body, "K:") {
 		i := strings.Index(body, " ")
 		key, body = body[:i+1], body[i+1:]
+	}
+	if strings.HasPrefix(body, "uniq ") {
+		obs, err := runUniq(body)
+		if err != nil {
+			return func() { out.Case(line, "bad-case", "") }
+		}
+		return func() { out.Case(key+body, obs, body) }
 	}
 	s, err := parseCase(body)
 	if err != nil {
